@@ -60,6 +60,8 @@ struct ep_state {
   uint64_t n_global_stores, n_min_stores, n_entered_stores;
   uint64_t trimmed_for;  /* ghost: first element of the list the chain was last trimmed against (RemoveOutDatedLists) */
   uint64_t nodes_allocated, nodes_freed;
+  uint64_t new_node_upper;   /* ghost: range and successor of the list node allocated last */
+  void *new_node_next;
 };
 extern struct ep_state EP;
 extern atomic_u64 *g_global;  /* &mgr.global_epoch_ */
